@@ -33,6 +33,45 @@ type GenOpts struct {
 	Degenerate   bool // keep Validate()-accepted but unusual shapes (nil bodies, empty one-of, nil elems)
 	ManyAttrs    int  // >0: force that many attributes in the root body (limit tests)
 	NoExtensions bool
+	DynFocus     bool // the dynamic-blocks extension over dependent bodies whose nested blocks carry extensions of their own
+}
+
+// dynFocusSchema: a block type with the dynamic-blocks extension and label-dependent bodies whose
+// nested block types have bodies with (or without) extensions of their own, two levels deep
+func dynFocusSchema(r *rand.Rand) *schema.BodySchema {
+	ext := func() *schema.BodyExtensions {
+		return pick(r, []*schema.BodyExtensions{nil, {Count: true}, {SelfRefs: true}, {DynamicBlocks: true}, {ForEach: true}, {}})
+	}
+	inner := func() *schema.BlockSchema {
+		return &schema.BlockSchema{MinItems: uint64(r.Intn(2)), Body: &schema.BodySchema{
+			Extensions: ext(),
+			Attributes: map[string]*schema.AttributeSchema{"p": {IsOptional: true, Constraint: schema.LiteralType{Type: cty.String}}},
+			Blocks: map[string]*schema.BlockSchema{"leaf": {MinItems: uint64(r.Intn(2)), Body: &schema.BodySchema{Extensions: ext(),
+				Attributes: map[string]*schema.AttributeSchema{"q": {IsOptional: true, Constraint: schema.LiteralType{Type: cty.Number}}}}}},
+		}}
+	}
+	res := &schema.BlockSchema{
+		Labels: []*schema.LabelSchema{{Name: "type", IsDepKey: true}, {Name: "name"}},
+		Body: &schema.BodySchema{
+			Extensions: &schema.BodyExtensions{DynamicBlocks: true, Count: r.Intn(2) == 0},
+			Attributes: map[string]*schema.AttributeSchema{"id": {IsOptional: true, Constraint: schema.LiteralType{Type: cty.String}}},
+			Blocks:     map[string]*schema.BlockSchema{"static": inner()},
+		},
+		DependentBody: map[schema.SchemaKey]*schema.BodySchema{},
+	}
+	for _, v := range []string{"aws", "gcp"} {
+		dk := schema.DependencyKeys{Labels: []schema.LabelDependent{{Index: 0, Value: v}}}
+		db := &schema.BodySchema{
+			Attributes: map[string]*schema.AttributeSchema{"size": {IsOptional: true, Constraint: schema.LiteralType{Type: cty.Number}}},
+			Blocks:     map[string]*schema.BlockSchema{"rule": inner()},
+		}
+		if r.Intn(2) == 0 {
+			db.Blocks["opt"] = inner()
+		}
+		res.DependentBody[schema.NewSchemaKey(copyKeys(dk))] = db
+		depKeyIndex[res] = append(depKeyIndex[res], dk)
+	}
+	return &schema.BodySchema{Blocks: map[string]*schema.BlockSchema{"resource": res}}
 }
 
 func genType(r *rand.Rand, d int) cty.Type {
@@ -675,12 +714,13 @@ type Decl struct {
 }
 
 type cfgGen struct {
-	r     *rand.Rand
-	eg    *exprGen
-	sb    strings.Builder
-	Decls []Decl
-	inj   bool // inject violations
+	r      *rand.Rand
+	eg     *exprGen
+	sb     strings.Builder
+	Decls  []Decl
+	inj    bool              // inject violations
 	forced map[string]string // dependency-key attribute values chosen for the block being written
+	dyn    bool              // an enclosing body enables dynamic blocks
 }
 
 func (g *cfgGen) indent(d int) string { return strings.Repeat("  ", d) }
@@ -708,6 +748,11 @@ func (g *cfgGen) depBodyFor(bs *schema.BlockSchema, labels []string, attrVals ma
 }
 
 func (g *cfgGen) body(bs *schema.BodySchema, d int, depth int) {
+	dynOuter := g.dyn
+	defer func() { g.dyn = dynOuter }()
+	if bs != nil && bs.Extensions != nil && bs.Extensions.DynamicBlocks {
+		g.dyn = true // the dynamic-blocks extension reaches every nested body
+	}
 	r := g.r
 	if bs == nil {
 		if r.Intn(2) == 0 {
@@ -772,11 +817,11 @@ func (g *cfgGen) body(bs *schema.BodySchema, d int, depth int) {
 			g.block(bt, bsch, d, depth-1)
 		}
 	}
-	if bs.Extensions != nil && bs.Extensions.DynamicBlocks && len(bs.Blocks) > 0 && r.Intn(2) == 0 {
+	if g.dyn && len(bs.Blocks) > 0 && r.Intn(2) == 0 {
 		bt := pick(r, sortedKeys(bs.Blocks))
 		fmt.Fprintf(&g.sb, "%sdynamic %q {\n%s  for_each = var.l\n%s  content {\n", g.indent(d), bt, g.indent(d), g.indent(d))
 		if bs.Blocks[bt].Body != nil {
-			g.body(bs.Blocks[bt].Body, d+2, 0)
+			g.body(bs.Blocks[bt].Body, d+2, r.Intn(2))
 		}
 		fmt.Fprintf(&g.sb, "%s  }\n%s}\n", g.indent(d), g.indent(d))
 	}
